@@ -673,6 +673,211 @@ def gen_cell(rng, cls, signs):
     return c
 
 
+# ------------------------------------------------------------------ kernel trainers with custom half kernels
+KCLS = ("KernelSTDP", "DelayAdjustedKernelSTDP", "DelayAdjustedKernelSTDPD")
+KREDK = {"sum": 0, "mean": 1, "amax": 2, "amin": 3}
+KNEG_KIND = "kernel_depression_negated_after_reduction"
+
+
+def ksided(v, td):
+    """K(t_delta) = c + (a_pos if t_delta >= 0 else a_neg) * exp(-|t_delta| / tc)"""
+    return v[2] + (v[0] if td >= 0 else v[1]) * math.exp(-abs(td) / v[3])
+
+
+def gen_kernel_pair(rng, style, signs):
+    """(kernel_post, kernel_pre) parameter vectors [a_pos, a_neg, c, tc]"""
+    mag = lambda: rng.choice([1.0, 0.5, 0.3, 0.7])          # noqa: E731
+    tc = lambda: rng.choice([20.0, 15.0, 5.0, 1.3])         # noqa: E731
+    sp, sq = signs
+    if style == "stock":          # one-sided like the shipped kernels, every sign combination of the rates
+        return [sp * mag(), 0.0, 0.0, tc()], [0.0, sq * mag(), 0.0, tc()]
+    if style == "mixed":          # overlapping supports with opposite signs: post >0 where pre <0 and vice versa
+        return [sp * mag(), -sp * mag(), 0.0, tc()], [-sp * mag(), sq * mag(), 0.0, tc()]
+    if style == "both":           # non-zero on both sides of 0
+        return ([rng.choice([1, -1]) * mag(), rng.choice([1, -1]) * mag(), 0.0, tc()],
+                [rng.choice([1, -1]) * mag(), rng.choice([1, -1]) * mag(), 0.0, tc()])
+    if style == "const":          # constant kernels of opposite / equal sign
+        return [0.0, 0.0, sp * rng.choice([0.25, 0.5]), tc()], [0.0, 0.0, sq * rng.choice([0.25, 0.75]), tc()]
+    # offset: a window riding on a constant of the other sign
+    return [sp * mag(), sp * mag(), -sp * 0.25, tc()], [sq * mag(), -sq * mag(), sq * 0.125, tc()]
+
+
+KSTYLES = ["mixed", "both", "const", "offset", "stock"]
+
+
+def gen_kernel_group(rng, gid, cls, style, signs, red):
+    """one kernel-trainer object with custom half kernels driving 2-3 cells (own Serial layer each); the first cell has no
+    overrides, the others override kernel_post_kwargs / kernel_pre_kwargs / batch_reduction"""
+    dt = rng.choice([1.0, 0.5, 0.25])
+    want_delay = cls != "KernelSTDP"
+    kp, kq = gen_kernel_pair(rng, style, signs)
+    defaults = {"cls": cls, "red": red, "kpost": kp, "kpre": kq}
+    T = rng.randint(2, 9)
+    cells = []
+    for j in range(rng.randint(2, 3)):
+        conn = c18.gen_conn(rng, dt, want_delay, conv_ok=(j == 2))
+        if conn.get("delay") is not None:
+            conn["delay"] = 3 * dt
+        case = {"kind": "kcell", "B": rng.randint(1, 3), "conn": conn, "trainer": dict(defaults), "override_keys": []}
+        g = c18.geometry(case)
+        if j >= 1:
+            keys = [k for k in ("post", "pre", "red") if rng.random() < 0.6] or ["post"]
+            kp2, kq2 = gen_kernel_pair(rng, rng.choice(KSTYLES), rng.choice(SIGNS))
+            t = case["trainer"]
+            if "post" in keys:
+                t["kpost"] = kp2
+            if "pre" in keys:
+                t["kpre"] = kq2
+            if "red" in keys:
+                t["red"] = rng.choice(["sum", "mean", "amax", "amin"])
+            case["override_keys"] = keys
+        ppre, ppost = rng.choice([0.3, 0.5, 0.7]), rng.choice([0.3, 0.5, 0.7])
+        case["steps"] = [{"pre": [int(rng.random() < ppre) for _ in range(case["B"] * g["nin"])],
+                          "post": [int(rng.random() < ppost) for _ in range(case["B"] * g["nout"])]} for _ in range(T)]
+        case["delay0"] = [rng.choice([0.0, dt, 2 * dt, dt / 2, 1.5 * dt]) for _ in range(g["nparam"])] if want_delay else None
+        case["w0"] = rng.choice([0.5, 0.3, 1.0])
+        case["bound"] = gen_bound(rng)
+        case.update(group=gid, family="kernel", defaults=defaults)
+        cells.append(case)
+    return cells
+
+
+def q_kernel(case, g, obs):
+    t = case["trainer"]
+    steps = []
+    for st, o in zip(case["steps"], obs):
+        dl = st["delay_seen"] if st.get("delay_seen") is not None else [0.0] * g["nparam"]
+        steps.append(f"kstep {c18.q_zlist(o)} {c18.q_zlist(st['post'])} {F.coq_list([q(d) for d in dl])}")
+    return (f"run_kernel_cell {case['B']} {g['npre']} {g['npost']} {c18.q_nat_pairs(g['syn'])} {q(case['conn']['dt'])} "
+            f"{KREDK[t['red']]}%Z {F.coq_bool(t['cls'] != 'KernelSTDP')} " + " ".join(q(x) for x in t["kpost"] + t["kpre"]) +
+            f" {F.coq_list(steps)}")
+
+
+def compare_kernel(case, impl, model):
+    if isinstance(model, Exception):
+        return {"model_error": str(model)[:600]}
+    if len(model) != len(impl["steps"]):
+        return {"what": "number of steps", "impl": len(impl["steps"]), "model": len(model)}
+    for k, (ri, rm) in enumerate(zip(impl["steps"], model)):
+        mpre, mpost, mparts = rm
+        for nm, vi, vm in (("pre monitor", ri["pre"], mpre[0]), ("post monitor", ri["post"], mpost[0])):
+            a, b = [F.dec_float(x) for x in vi], [F.dec_float(x) for x in vm]
+            if len(a) != len(b):
+                return {"what": nm + " size", "step": k, "impl": len(a), "model": len(b)}
+            for j, (x, y) in enumerate(zip(a, b)):
+                if (x != x) != (y != y) or (x == x and not F.close(x, y)):
+                    return {"what": nm, "step": k, "index": j, "impl": x, "model": y}
+        for side, nm in ((0, "pos"), (1, "neg")):
+            vi = decl(ri[nm])
+            if vi is None or len(vi) != len(mparts):
+                return {"what": f"{nm} part missing or of the wrong size", "step": k}
+            for e, p in enumerate(mparts):
+                mv = dec_opt(p[side])
+                if not same(mv, vi[e]):
+                    return {"what": f"{nm} part", "step": k, "element": e, "impl": vi[e], "model": mv}
+    if not impl.get("cleared"):
+        return {"what": "accumulator not cleared by update()"}
+    return None
+
+
+def kred_apply(red, xs):
+    if red == "amin":
+        return min(xs)
+    return red_apply(red, xs)
+
+
+def oracle_kernel(case, g, obs, impl):
+    """the C09 contract per part, from the spike histories alone: every (receptive pair, half kernel) contributes
+    K(t_delta) with t_delta = t_post_last - t_pre_last - delay; the potentiating part is, per half kernel, the batch
+    reduction of the sample sums of the NON-NEGATIVE contributions, the depressing part the same for the magnitudes of the
+    negative ones; both >= 0; the applied change goes through the bound functions.  -> [(detail, signature)]"""
+    t = case["trainer"]
+    cls, red, dt, B = t["cls"], t["red"], case["conn"]["dt"], case["B"]
+    last_pre = [None] * (B * g["npre"])
+    last_post = [None] * (B * g["npost"])
+    n = g["nparam"]
+    acc_p, acc_n = [0.0] * n, [0.0] * n
+    fails, seen = [], False
+    for k, (st, o, ri) in enumerate(zip(case["steps"], obs, impl["steps"])):
+        for j, s in enumerate(o):
+            if s:
+                last_pre[j] = k
+        for j, s in enumerate(st["post"]):
+            if s:
+                last_post[j] = k
+        pos, neg = decl(ri["pos"]), decl(ri["neg"])
+        delays = st.get("delay_seen") or [0.0] * n
+        for e, pairs in enumerate(g["syn"]):
+            d = 0.0 if cls == "KernelSTDP" else delays[e]
+            P = {"post": [], "pre": []}
+            Nn = {"post": [], "pre": []}
+            for b in range(B):
+                p = {"post": 0.0, "pre": 0.0}
+                m = {"post": 0.0, "pre": 0.0}
+                for (i, oo) in pairs:
+                    jp, jq = last_pre[b * g["npre"] + i], last_post[b * g["npost"] + oo]
+                    if jp is None or jq is None:
+                        continue          # no change while either side has not spiked yet
+                    td = (jq - jp) * dt - d
+                    for half, v in (("post", t["kpost"]), ("pre", t["kpre"])):
+                        x = ksided(v, td)
+                        if x >= 0:
+                            p[half] += x
+                        else:
+                            m[half] -= x
+                for half in ("post", "pre"):
+                    P[half].append(p[half])
+                    Nn[half].append(m[half])
+            want_p = kred_apply(red, P["post"]) + kred_apply(red, P["pre"])
+            want_n = kred_apply(red, Nn["post"]) + kred_apply(red, Nn["pre"])
+            # what the code computes for the depressing part: minus the reduction of the NEGATIVE sums (= want_n for sum / mean)
+            code_n = -(kred_apply(red, [-x for x in Nn["post"]]) + kred_apply(red, [-x for x in Nn["pre"]]))
+            gp = 0.0 if pos is None else pos[e]
+            gn = 0.0 if neg is None else neg[e]
+            acc_p[e] += gp
+            acc_n[e] += gn
+            if gp < 0 or gn < 0:
+                fails.append(({"what": "a part handed to the updater is negative", "step": k, "element": e, "pos": gp, "neg": gn},
+                              {"kind": "negative_part", "trainer": cls}))
+                return fails
+            if not F.close(gp, want_p, rel=1e-9, ab=1e-11):
+                fails.append(({"what": "potentiating part != per half kernel the batch reduction of the non-negative contributions",
+                               "step": k, "element": e, "got": gp, "want": want_p, "reduction": red, "kernels": [t["kpost"], t["kpre"]]},
+                              {"kind": "kernel_split", "trainer": cls}))
+                return fails
+            if F.close(gn, want_n, rel=1e-9, ab=1e-11):
+                continue
+            if red in ("amax", "amin") and F.close(gn, code_n, rel=1e-9, ab=1e-11):
+                if not seen:
+                    seen = True
+                    fails.append(({"what": "depressing part is MINUS the batch reduction of the negative sums, not the batch reduction of "
+                                           "their magnitudes: with amax (amin) the smallest (largest) depression of the batch is "
+                                           "handed to the updater", "step": k, "element": e, "got": gn, "want": want_n,
+                                   "reduction": red, "per_sample_magnitudes": Nn}, {"kind": KNEG_KIND, "trainer": cls, "red": red}))
+                continue
+            fails.append(({"what": "depressing part != per half kernel the batch reduction of the magnitudes of the negative "
+                                   "contributions", "step": k, "element": e, "got": gn, "want": want_n, "reduction": red,
+                           "kernels": [t["kpost"], t["kpre"]]}, {"kind": "kernel_split", "trainer": cls}))
+            return fails
+    bef, aft = decl(impl["before"]), decl(impl["after"])
+    mask = None
+    if case["conn"]["cls"] == "LinearLateral":
+        nn_ = case["conn"]["in"][0]
+        mask = [0.0 if (e // nn_) == (e % nn_) else 1.0 for e in range(nn_ * nn_)]
+    for e in range(n):
+        want = bef[e] + bounded_change(case.get("bound"), bef[e], acc_p[e], acc_n[e])
+        if mask is not None and cls != "DelayAdjustedKernelSTDPD":
+            want *= mask[e]
+        if mask is not None and mask[e] == 0.0:
+            continue
+        if not F.close(aft[e], want, rel=1e-9, ab=1e-10):
+            fails.append(({"what": "applied change != upper(param, pos) - lower(param, neg)", "element": e, "before": bef[e],
+                           "after": aft[e], "want": want, "pos": acc_p[e], "neg": acc_n[e]},
+                          {"kind": "bound_routing", "trainer": cls}))
+            break
+    return fails
+
+
 # ------------------------------------------------------------------ groups: ONE trainer object, several cells with overrides
 def gen_homeo_group(rng, gid, expect_error=False):
     """one LinearHomeostasis object driving 2-3 cells registered with per-cell keyword overrides of plasticity / target /
@@ -985,7 +1190,7 @@ def strip(c):
     for k in ("defaults", "group", "family", "tg_used", "tg_doc", "grp_dflts", "grp_index"):
         if member or k.startswith("tg_") or k.startswith("grp_"):
             c.pop(k, None)
-    for st in c.get("steps", []) if c.get("kind") == "cell" else []:
+    for st in c.get("steps", []) if c.get("kind") in ("cell", "kcell") else []:
         st.pop("delay_seen", None)
     return c
 
@@ -1009,6 +1214,17 @@ def evaluate(cases):
             ents = stdp_entries(c)
             spans.append((len(terms), len(ents)))
             terms += [q_stdp(c, e) for e in ents]
+        elif c["kind"] == "kcell":
+            if r.get("ok"):
+                for st, ri in zip(c["steps"], r["steps"]):
+                    st["delay_seen"] = None if ri.get("delay") is None else [F.dec_float(x) for x in ri["delay"]]
+                g = c18.geometry(c)
+                o = c18.pre_observations(c, g)
+                cell_aux[i] = (g, o)
+                spans.append((len(terms), 1))
+                terms.append(q_kernel(c, g, o))
+            else:
+                spans.append(None)
         else:
             spans.append(None)
             if r.get("ok"):
@@ -1060,6 +1276,13 @@ def evaluate(cases):
             for det, sg in ofl:
                 fails.append({"case": group_of(cases, c), "detail": det,
                               "signature": dict(sg, overrides=bool(c.get("override_keys"))) if c.get("group") is not None else sg})
+        elif c["kind"] == "kcell":
+            g, o = cell_aux[i]
+            d = compare_kernel(c, r, model[spans[i][0]])
+            if d is not None:
+                mismatches.append({"case": group_of(cases, c), "detail": d})
+            for det, sg in oracle_kernel(c, g, o, r):
+                fails.append({"case": group_of(cases, c), "detail": det, "signature": dict(sg, overrides=bool(c.get("override_keys")))})
         elif c["kind"] == "stdp" and c.get("bic") is not None:
             if any(x.get("group") == c["group"] and x["bic"][0] == c["bic"][0] for x in cases[:i]):
                 continue       # judged with the first cell on its connection
@@ -1134,7 +1357,7 @@ def run(ctx):
     c18.STATS.clear()
     REPAIRED[0] = 0
     n_h, n_s, n_c = (70, 50, 24) if quick else (1200, 1200, 400)
-    n_hg, n_sg, n_bg, n_hb = (36, 36, 42, 16) if quick else (500, 500, 396, 240)
+    n_hg, n_sg, n_bg, n_hb, n_kg = (36, 36, 42, 16, 60) if quick else (500, 500, 396, 240, 900)
     cases = expand_groups(load_corpus()) + [copy.deepcopy(WITNESS)]
     cases += [gen_homeo(rng) for _ in range(n_h)]
     gid = 0
@@ -1153,6 +1376,10 @@ def run(ctx):
     for k in range(n_bg):       # one trainer on one Biclique layer: cells sharing a neuron group / a connection
         gid += 1
         cases += gen_stdp_biclique(rng, gid, TRAINERS[k % 6], SIGNS[(k // 6) % 4], k // 6)
+    for k in range(n_kg):       # kernel trainers with custom half kernels: class x kernel style x reduction x sign mode in turn
+        gid += 1
+        cases += gen_kernel_group(rng, gid, KCLS[k % 3], KSTYLES[(k // 3) % 5], SIGNS[(k // 15 + k) % 4],
+                                  ["sum", "amax", "mean", "amin"][(k // 3 + k // 15) % 4])
     cases += exhaustive_stdp(2 if quick else 3)
     cases += [gen_cell(rng, cls, sg) for cls in c18.TWO + c18.KER + c18.THREE for sg in SIGNS for _ in range(2 if quick else 12)]
     cases += [c18.gen_case(rng) for _ in range(n_c)]
@@ -1164,7 +1391,15 @@ def run(ctx):
     # printed as FINDING-CANDIDATE before
     nh = sum(1 for c in cases if c['kind'] == 'homeo')
     cands = [f for f in fails if (f.get("signature") or {}).get("kind") == FINDING_KIND]
-    oracle_failures = [f for f in fails if (f.get("signature") or {}).get("kind") != FINDING_KIND]
+    kneg = [f for f in fails if (f.get("signature") or {}).get("kind") == KNEG_KIND]
+    oracle_failures = [f for f in fails if (f.get("signature") or {}).get("kind") not in (FINDING_KIND, KNEG_KIND)]
+    if kneg and known_listed(KNEG_KIND):
+        oracle_failures += kneg[:3]
+    elif kneg:
+        print(f"FINDING-CANDIDATE: property={ID} the kernel trainers hand -batch_reduction(negative sums) as the depressing part: "
+              f"with a non-odd reduction (torch.amax / torch.amin) that is the SMALLEST (largest) depression magnitude of the "
+              f"batch where the potentiating part takes the largest (smallest) ({len(kneg)} cells; signature kind={KNEG_KIND}; "
+              f"NOT yet listed in known_findings.json)")
     if cands and known_listed(FINDING_KIND):
         oracle_failures += cands[:3]
     elif cands:
@@ -1174,7 +1409,7 @@ def run(ctx):
               f"plasticity 1, one step with a spike -> weight +1)")
     homeo = [c for c in cases if c["kind"] == "homeo"]
     stdp = [c for c in cases if c["kind"] == "stdp"]
-    cells = [c for c in cases if c["kind"] == "cell"]
+    cells = [c for c in cases if c["kind"] in ("cell", "kcell")]
 
     def nontrivial(c):
         if c["kind"] == "homeo":
@@ -1225,6 +1460,9 @@ def run(ctx):
         "biclique_groups_cells_sharing_neuron_or_connection": len({c["group"] for c in cases if c.get("bic") is not None}),
         "biclique_differing_key_sharing_neuron": dict(Counter(c["differs"]["sharing_neuron"] for c in cases if c.get("bic") == [0, 0])),
         "biclique_differing_key_sharing_connection": dict(Counter(c["differs"]["sharing_connection"] for c in cases if c.get("bic") == [0, 0])),
+        "kernel_cells_custom_half_kernels": sum(1 for c in cases if c["kind"] == "kcell"),
+        "kernel_class_x_reduction": dict(Counter(c["trainer"]["cls"] + "/" + c["trainer"]["red"] for c in cases if c["kind"] == "kcell")),
+        "kernel_cells_showing_negated_reduction": len(kneg),
         "expected_error_groups": sum(1 for c in cases if c.get("expect_error")),
         "homeo_cases_where_impl_satisfies_the_oracle_but_not_the_defect_model": REPAIRED[0],
         "finding_listed": known_listed(),
@@ -1239,7 +1477,8 @@ def run(ctx):
 def _fails(case):
     cs = expand_groups([copy.deepcopy(case)])
     _, mm, of = evaluate(cs)
-    of = [f for f in of if not ((f.get("signature") or {}).get("kind") == FINDING_KIND and known_listed())]
+    of = [f for f in of if not ((f.get("signature") or {}).get("kind") in (FINDING_KIND, KNEG_KIND)
+                                and known_listed((f.get("signature") or {}).get("kind")))]
     if of:
         return of[0]["detail"]
     if mm:
@@ -1252,7 +1491,7 @@ def _shorten(case):
     c2 = copy.deepcopy(case)
     cells = c2["cells"] if c2["kind"] == "group" else [c2]
     for x in cells:
-        keys = {"homeo": ("post", "fwd_targets"), "stdp": ("pre", "post", "signal"), "cell": ("steps",)}[x.get("kind", "cell")]
+        keys = {"homeo": ("post", "fwd_targets"), "stdp": ("pre", "post", "signal"), "cell": ("steps",), "kcell": ("steps",)}[x.get("kind", "cell")]
         if len(x[keys[0]]) <= 1:
             return None
         for kk in keys:
